@@ -220,7 +220,8 @@ def _str_to_set_of_expr(value: Any) -> set[Expression]:
     for expression in value:
         try:
             result.add(_LICENSING.parse(expression))
-        except (ExpressionError, ParseError) as error:
+        # (IndexError: the parser stumbles over some malformed expressions.)
+        except (ExpressionError, ParseError, IndexError) as error:
             raise GlobalLicensingParseValueError(
                 _("Could not parse '{expression}'").format(
                     expression=expression
